@@ -477,6 +477,26 @@ pub fn structured_faults(doc: &J, sink: &mut dyn FnMut(Faulted)) {
             J::Str(s) => {
                 let mut alts: Vec<String> = STR_ALTS.iter().map(|x| x.to_string()).collect();
                 alts.extend(other_strs.iter().cloned());
+                // the same text in another spelling: upper case, first letter upper case,
+                // padded, one character short
+                if s.len() <= 40 && !s.contains('\\') {
+                    let inner = s.trim_matches('"');
+                    let mut title = String::new();
+                    for (i, c) in inner.chars().enumerate() {
+                        if i == 0 {
+                            title.extend(c.to_uppercase());
+                        } else {
+                            title.push(c);
+                        }
+                    }
+                    alts.push(format!("\"{}\"", inner.to_uppercase()));
+                    alts.push(format!("\"{}\"", title));
+                    alts.push(format!("\" {}\"", inner));
+                    alts.push(format!("\"{} \"", inner));
+                    if let Some((cut, _)) = inner.char_indices().last() {
+                        alts.push(format!("\"{}\"", &inner[..cut]));
+                    }
+                }
                 for alt in &alts {
                     if alt == s {
                         continue;
